@@ -596,6 +596,98 @@ fn run_drop(c: &DropCase) -> Outcome {
 	o
 }
 
+// ---------------------------------------------------------------------------------------------
+// A high / urgent control that arrives while the job task is suspended inside the first control of a
+// two-control operation (the Stop of restart(), whose kill takes a while to take effect)
+
+#[derive(Clone, Debug, Serialize, Deserialize)]
+pub struct KillLagCase {
+	/// the killed process dies this many virtual ms after the kill
+	pub lag_ms: u8,
+	/// the overtaking control is sent this many ms after restart() (inside the lag when smaller)
+	pub arrive_ms: u8,
+	/// false = to_wait (high), true = delete_now (urgent)
+	pub urgent: bool,
+	/// run closures queued behind the restart (normal priority)
+	pub closures: u8,
+}
+
+fn run_kill_lag(c: &KillLagCase) -> Outcome {
+	let mut o = Outcome::pass();
+	let lag = u64::from(c.lag_ms.max(2));
+	let arrive = u64::from(c.arrive_ms).clamp(1, lag - 1);
+	o.nontrivial = true;
+	o.label(if c.urgent { "delete_now-inside-the-stop-of-a-restart" } else { "to_wait-inside-the-stop-of-a-restart" });
+	let n = usize::from(c.closures);
+	let rt = tokio::runtime::Builder::new_current_thread().enable_all().start_paused(true).build().unwrap();
+	let (spawned, resolved_at, ran, ended, log) = rt.block_on(async {
+		let world = crate::sim::World::new(SimSpec { children: vec![ChildSpec { self_exit: None, code: 0, react: React::Ignore }], kill_lag_ms: lag as u8, ..Default::default() });
+		let (job, task) = start_job(Arc::new(Command {
+			program: Program::Exec { prog: "/bin/true".into(), args: vec![] },
+			options: SpawnOptions::default(),
+		}));
+		world.set_hook(&job, None).await;
+		job.start().await;
+		let t0 = tokio::time::Instant::now();
+		drop(job.restart());
+		let ran: Arc<Mutex<Vec<usize>>> = Arc::new(Mutex::new(Vec::new()));
+		for i in 0..n {
+			let ran = ran.clone();
+			drop(job.run(move |_| ran.lock().unwrap().push(i)));
+		}
+		tokio::time::sleep(std::time::Duration::from_millis(arrive)).await;
+		let mut resolved_at = None;
+		if c.urgent {
+			let t = job.delete_now();
+			let _ = tokio::time::timeout(std::time::Duration::from_secs(5), t).await;
+		} else {
+			let t = job.to_wait();
+			if tokio::time::timeout(std::time::Duration::from_secs(5), t).await.is_ok() {
+				resolved_at = Some((tokio::time::Instant::now() - t0).as_millis() as u64);
+			}
+			// let the rest of the restart and the closures run, then end the job
+			tokio::time::sleep(std::time::Duration::from_millis(50)).await;
+			let _ = tokio::time::timeout(std::time::Duration::from_secs(5), job.delete_now()).await;
+		}
+		drop(job);
+		let ended = tokio::time::timeout(std::time::Duration::from_secs(5), task).await.is_ok();
+		let r = ran.lock().unwrap().clone();
+		(world.spawned(), resolved_at, r, ended, world.log())
+	});
+	let dump = || format!("\ncase {c:?} (kill takes {lag} ms, overtaking control sent {arrive} ms after restart())\nlog {log:?}");
+	if !ended {
+		o.fail("task-not-ended:after-delete_now", format!("the job task was still running 5 s after delete_now{}", dump()));
+		return o;
+	}
+	if c.urgent {
+		// delete_now is pending when the task next looks at its queues (after the Stop): it runs before the
+		// Start and the closures, so the command is never spawned again and no closure runs
+		if spawned != 1 || !ran.is_empty() {
+			o.fail(
+				"urgent-did-not-overtake-the-rest-of-a-restart",
+				format!("delete_now was pending when the Stop of restart() completed, yet {} further process(es) were spawned and closures {ran:?} ran before the job was deleted{}", spawned.saturating_sub(1), dump()),
+			);
+		}
+	} else {
+		// to_wait is pending when the Stop completes: it sees the command not running and resolves then,
+		// before the Start of the restart
+		match resolved_at {
+			Some(t) if t <= lag + 1 => {}
+			other => {
+				o.fail(
+					"high-did-not-overtake-the-rest-of-a-restart",
+					format!("to_wait() was pending when the Stop of restart() completed at {lag} ms, but resolved at {other:?} ms (it attached to the replacement process){}", dump()),
+				);
+				return o;
+			}
+		}
+		if spawned != 2 || ran != (0..n).collect::<Vec<_>>() {
+			o.fail("controls-behind-restart-did-not-all-run", format!("{spawned} processes spawned (expected 2), closures that ran {ran:?} (expected 0..{n}){}", dump()));
+		}
+	}
+	o
+}
+
 fn long_strategy() -> BoxedStrategy<LongCase> {
 	// positions around powers of two get extra weight (batching / budget boundaries of the runtime)
 	let k = prop_oneof![
@@ -620,6 +712,15 @@ pub fn check(e: &Engine) {
 		&run,
 	);
 	e.require_label("ordering", "2+priorities", 0.5);
+	e.explore(
+		"arrival-during-kill",
+		LegOpts::det(
+			e.tier.pick(400, 8_000),
+			"restart() (two normal controls sent by one call) on a running job whose killed process takes 2-60 virtual ms to die, 0-4 closures behind it, and a to_wait (high) or delete_now (urgent) sent while the job task is suspended inside the Stop: when the task next looks at its queues the high / urgent control runs before the Start and the closures (to_wait resolves the moment the Stop completes; after delete_now nothing is spawned again and no closure runs)",
+		),
+		&|| (2u8..60, 1u8..60, any::<bool>(), 0u8..5).prop_map(|(lag_ms, arrive_ms, urgent, closures)| KillLagCase { lag_ms, arrive_ms, urgent, closures }).boxed(),
+		&run_kill_lag,
+	);
 	e.explore(
 		"long-burst",
 		LegOpts::det(
